@@ -170,6 +170,29 @@ func shapedScenario(g *Gen, which int) Case {
 		}
 		steps = []interface{}{cmd("rename", "p", long), cmd("probe"), cmd("add", long, "p", ""), cmd("probe"),
 			cmd("rebase", "k1", long), cmd("probe")}
+	case 9, 10:
+		// layers probed "not yet populated" whose only user data are symbolic links to
+		// directories (a packages directory kept on another disk; lib64 -> lib in an upper
+		// directory): remove without -files must keep them
+		base := "b0"
+		lp := VB + "/layers/" + base
+		t.dir(lp + "/build/root")
+		t.file(lp+"/layerconfig", "import proc /proc /proc\n")
+		t.file(lp+"/build/root/.bashrc", "#bashrc")
+		t.dir(lp + "/build/proc")
+		t.link(lp+"/packages", VB+"/hostsrc")
+		dp := VB + "/layers/d0"
+		t.file(dp+"/layerconfig", "base b0\n\nimport proc /proc /proc\n")
+		t.dir(dp + "/build")
+		t.dir(dp + "/overlayfs/workdir")
+		t.dir(dp + "/overlayfs/upperdir/usr/lib")
+		t.link(dp+"/overlayfs/upperdir/usr/lib64", "lib")
+		if which == 9 {
+			steps = []interface{}{cmd("probe"), obj("cmd", "remove", "args", hxs([]string{"d0"}), "files", false), cmd("probe"),
+				obj("cmd", "remove", "args", hxs([]string{"b0"}), "files", false), cmd("probe")}
+		} else {
+			steps = []interface{}{cmd("rename", "d0", "d9"), obj("cmd", "remove", "args", hxs([]string{"d9"}), "files", false), cmd("probe")}
+		}
 	default:
 		// export directory names that differ from the layer's own directory names, explicit
 		// export directives, then rename and remove
@@ -188,7 +211,7 @@ func shapedScenario(g *Gen, which int) Case {
 
 func init() {
 	register("scn-directed", func(g *Gen, tier string, emit func(Case)) {
-		for w := 0; w < 9; w++ {
+		for w := 0; w < 12; w++ {
 			emit(shapedScenario(g, w))
 		}
 		for _, imp := range directedImports {
